@@ -87,7 +87,9 @@ ParkedPcs == {"w.blocked", "m.wait", "r.blocked", "v.wait", "msg.wait"}
 
 \* "M" = Channel.Write(message) with a []byte message: closed test, then the pipeline's head
 \* handler calls Write1; an error of Write1 becomes an exception and Write still returns nil
-MsgKinds == {"M", "MV", "MR", "MT"}             \* calls of Channel.Write(message)
+\* "MX" = a message no handler converts: the head handler panics, the recover guard of the call turns the panic into an
+\* exception event delivered on the caller's goroutine (gate "h.exc" inside the application's exception handler)
+MsgKinds == {"M", "MV", "MR", "MT", "MX"}       \* calls of Channel.Write(message)
 EntryPc(k) == IF k \in MsgKinds THEN "m.enter" ELSE IF k = "RF" THEN "rf.enter" ELSE "w.enter"
 
 \* result of a write that lost against the channel context
@@ -222,10 +224,21 @@ MEnter(w) ==
                    reads, readsLeft, rinflight, faults, cancelled, acc, accAtClose, closeRet, drainedOK,
                    mutex, mwait, fatal, pooled, dirty, corrupt>>
     /\ IF closed = 0
-       THEN /\ NoFinish /\ pc' = PcAfter(One(w, IF Kind(w) = "MR" THEN "rf.enter" ELSE "w.enter"))
+       THEN /\ NoFinish /\ pc' = PcAfter(One(w, IF Kind(w) = "MR" THEN "rf.enter" ELSE IF Kind(w) = "MX" THEN "h.exc" ELSE "w.enter"))
        ELSE IF ctxDone
             THEN /\ FinishAll(One(w, CloseRes)) /\ pc' = PcAfter(One(w, NextWPc(w)))
             ELSE /\ NoFinish /\ pc' = PcAfter(One(w, "msg.wait"))
+
+\* the application's exception handler returns (it consumed the exception): Channel.Write returns nil, the call
+\* failed with an exception, nothing else happened to the channel - whatever other goroutines did meanwhile
+HExc(w) ==
+    /\ pc[w] = "h.exc"
+    /\ FinishAll(One(w, "mexc"))
+    /\ pc' = PcAfter(One(w, NextWPc(w)))
+    /\ UNCHANGED <<stack, queue, waitq, running, closed, closeErr, werr, ctxDone, tclosed,
+                   tcloses, tlog, flushed, batch, nexts, polls, carg, inactives, actives,
+                   reads, readsLeft, rinflight, faults, cancelled, acc, begun, before, accAtClose, closeRet,
+                   lateBegun, drainedOK, mutex, mwait, fatal, pooled, dirty, corrupt>>
 
 \* ReadFrom: its own closed test before the first chunk is read
 RFEnter(w) ==
@@ -733,7 +746,7 @@ Served(p) == (p \in Writers \cup Closers) => pc["V"] # "v.start"
 Step(p) ==
   /\ Served(p)
   /\
-    \/ (p \in Writers /\ (MEnter(p) \/ RFEnter(p) \/ WEnter(p) \/ WCtxDone(p) \/ WSelect(p) \/ WCas(p) \/ TWrite(p) \/ TWFlush(p)))
+    \/ (p \in Writers /\ (MEnter(p) \/ HExc(p) \/ RFEnter(p) \/ WEnter(p) \/ WCtxDone(p) \/ WSelect(p) \/ WCas(p) \/ TWrite(p) \/ TWFlush(p)))
     \/ (p \notin Writers /\ (XStart(p) \/ SPoll(p) \/ TWritev(p) \/ SLen(p) \/ TSFlush(p)
                              \/ SRelease(p) \/ SRecheck(p) \/ SRecas(p) \/ SFail(p)
                              \/ CCas(p) \/ CPoll(p) \/ CSetErr(p) \/ TClose(p) \/ CCancel(p)
